@@ -1046,6 +1046,17 @@ class Engine:
         nstar = [i for i, e in enumerate(elts) if isinstance(e, pyast.Starred)]
         items = self.iter_concrete(path, v)
         if items is None:
+            if len(nstar) == 1:
+                seq = self.symbolic_seq(path, v)
+                L = z3.Length(seq)
+                i = nstar[0]
+                after = len(elts) - i - 1
+                if not self.branch(path, L >= len(elts) - 1):
+                    self.throw(path, "ValueError", "not enough values to unpack")
+                head = [self.from_pv(z3.simplify(seq[j]), path) for j in range(i)]
+                tail = [self.from_pv(z3.simplify(seq[L - after + j]), path) for j in range(after)]
+                mid = ListObj(z3.simplify(z3.SubSeq(seq, i, L - i - after)))
+                return head + [mid] + tail
             raise Unsupported("unpacking a symbolic-length sequence")
         if not nstar:
             if len(items) != len(elts):
@@ -1356,6 +1367,10 @@ class Engine:
                 pv = self.U.fresh("strarg")
             t = self.uf("py_str", self.PV, z3.StringSort())(pv)
             return SStr([Atom(t, ("py_str", pv, type(x).__name__))])
+        if hasattr(x, "sym_mro"):
+            # str() of a foreign object (e.g. a sly Token): some string, assumed not to raise
+            t = self.U.fresh("objstr", z3.StringSort())
+            return SStr([Atom(t, ("py_str_obj", type(x).__name__))])
         raise Unsupported(f"str() of {type(x).__name__}")
 
     def ex_Tuple(self, path, frame, e):
